@@ -226,6 +226,7 @@ type mxScript struct {
 	reqs       int
 	others     int
 	stagger    int64
+	create     bool // concurrent requests call Start with createIfNew = true
 	storeDelay int64
 	hasStoreD  bool
 }
@@ -301,6 +302,8 @@ func runMx(script, outPath string) {
 		case "others":
 			need(1)
 			sc.others = int(atoi64(tok[1]))
+		case "create":
+			sc.create = tok[1] == "1"
 		case "stagger":
 			need(1)
 			sc.stagger = atoi64(tok[1])
@@ -629,7 +632,7 @@ func (r *mxRun) runStart(sc *mxScript) {
 						kind = "panic"
 					}
 				}()
-				s, err := sessions.Start(resp, req, false)
+				s, err := sessions.Start(resp, req, sc.create)
 				switch {
 				case err != nil:
 					kind = "err:" + classify(err)
